@@ -491,6 +491,53 @@ def user_part(ctx):
                 rep.fail('user:regroup', case, {'k': k})
 
 
+def row_return_part(ctx):
+    """row callables by what they return: None (edited in place), a new row, an empty row, a row with other keys; the
+    step takes effect exactly as written, for every row, whatever the value looks like (falsy included)"""
+    rep = ctx.report
+    rng = ctx.rng('row-return')
+
+    def project_non_null(row):
+        return {k: v for k, v in row.items() if v is not None}
+
+    def only_flag(row):
+        return {'flag': True} if row.get('a') else {}
+
+    def in_place(row):
+        row['a'] = (row.get('a') or 0) + 1
+
+    def replace(row):
+        return dict(row, b='R')
+    fns = {'project-non-null': project_non_null, 'only-flag-or-empty': only_flag, 'in-place': in_place, 'replace': replace}
+    for _ in range(ctx.n(60, 600)):
+        n = rng.choice([1, 3, 120])
+        data = [{'a': rng.choice([None, 0, 1, 5]), 'b': rng.choice([None, 'x', 'y'])} for _ in range(n)]
+        data[0] = {'a': 1, 'b': 'x'}        # a typed first row for the inference
+        names = [rng.choice(sorted(fns)) for _ in range(rng.randint(1, 3))]
+        case = {'row-return': names, 'rows': canon._plain(data)}
+        # specification: apply the functions as written
+        want = []
+        for r in copy.deepcopy(data):
+            for nm in names:
+                ret = fns[nm](r)
+                r = r if ret is None else ret
+            want.append(r)
+        try:
+            with quiet():
+                ds = Flow(copy.deepcopy(data), *[fns[nm] for nm in names]).datastream()
+                got = [dict(r) for r in list(ds.res_iter)[0]]
+        except Exception as e:  # noqa
+            rep.case('row-return', case, nontrivial=False)
+            rep.fail('row-return:raises', case, repr(e)[:300])
+            continue
+        rep.case('row-return', case)
+        if got != want:
+            i = next((i for i, (a, b) in enumerate(zip(got, want)) if a != b), None)
+            rep.fail('row-return:row-differs-from-what-the-function-returned', case,
+                     {'index': i, 'got': repr(got[i])[:200] if i is not None else len(got),
+                      'expected': repr(want[i])[:200] if i is not None else len(want)})
+
+
 def run(ctx):
     rep = ctx.report
     rep.rule = ('(a) every kind of link object through Flow (dispatch); (b) random well-typed pipelines of 1-6 Layer-A steps on '
@@ -503,6 +550,7 @@ def run(ctx):
         dispatch_part(ctx)
     pipeline_part(ctx)
     user_part(ctx)
+    row_return_part(ctx)
 
     def search(disagreements):
         before = len(rep.oracle_failures)
